@@ -212,7 +212,9 @@ class TcpConnection():
                 tcp_connection.debug(f"[Socket-{self.sock_id}] Just sent "\
                                      f"{sent} bytes in _send_buffer")
             
-            except BlockingIOError:
+            except OSError:
+                #: Not only EAGAIN: a connection which has been reset by the 
+                #: peer is noticed by the write when there is data pending.
                 tcp_connection.exception(f"[Socket-{self.sock_id}] An error "\
                                          f"has occurred")
 
